@@ -85,7 +85,8 @@ Definition check_case (c : mcase) : list N :=
           4 lookup panicked   5 a documented-valid, non-conflicting pattern was rejected
           6 an invalid or conflicting pattern was accepted   7 listeners are not those of the matched pattern
           8 OnRegister was not called exactly once, with the full pattern, for every accepted handler that
-            carries it and whose mux ended up below a registered one (and for no other) *)
+            carries it and whose mux ended up below a registered one (and for no other)
+          9 NewMux accepted an invalid path or rejected a documented-valid one *)
 Fixpoint strip_toks (pre l : list bytes) : option (list bytes) :=
   match pre, l with
   | [], _ => Some l
@@ -166,9 +167,18 @@ Definition expected_events (c : mcase) : list event :=
     if rg_ok r && rg_clean r && rg_onreg r && nth t (c_registered c) false
     then [(join (split_pattern (nth t (c_paths c) []) ++ full_toks c (rg_mux r) (rg_pat r)), rg_hid r)]
     else []) (c_regs c).
+(* a mux path the documentation calls valid: empty, or a valid pattern all of whose tokens are literal
+   ('$' '*' '>' only mark a placeholder / wildcard as the FIRST character of a token) *)
+Definition doc_valid_path (p : bytes) : bool :=
+  is_nil p || (tvalid p && forallb (fun t => match kind t with KLit => true | _ => false end) (tokens p)).
+Definition viol_paths (c : mcase) : list N :=
+  flat_map (fun x => match fst (fst x) with
+                     | XBase (ONew path) =>
+                       if Bool.eqb (doc_valid_path path) (snd (fst x)) then [9] else []
+                     | _ => [] end) (c_ops c).
 Definition viol_case (c : mcase) : list N :=
   flat_map (viol_lookup c) (c_lookups c) ++
-  viol_regs c [] (filter lr_ok (c_lregs c)) (c_regs c) ++
+  viol_regs c [] (filter lr_ok (c_lregs c)) (c_regs c) ++ viol_paths c ++
   (* callbacks of handlers whose Handle call panicked after placing them are not judged *)
   (let unclean := map rg_hid (filter (fun r => rg_ok r && negb (rg_clean r)) (c_regs c)) in
    if ev_same (expected_events c) (filter (fun e => negb (existsb (N.eqb (snd e)) unclean)) (flat_map snd (c_ops c))) then [] else [8]).
